@@ -263,8 +263,31 @@ fn gen_xb(r: &mut StdRng, i: u64, thorough: bool) -> Src {
     let pal = if r.gen_bool(0.6) { Some(pal16_sixbit(r)) } else { None };
     let maxbg = if mode == 2 { 16 } else { 8 };
     let cells = gen_cells(r, (w * h) as usize, &any_char, if two { 8 } else { 16 }, maxbg, mode != 2, if two { 2 } else { 1 });
-    let compress = r.gen_bool(0.5);
-    Src { fmt: "xb", w, h, mode, pal, fonts, cells, compress, sauce: r.gen_bool(0.3), class: format!("fonts={},fh={},pal={},compress={}", if two { 2 } else { 1 }, fh, 0, compress as u8) }
+    let mut cells = cells;
+    let mut compress = r.gen_bool(0.5);
+    let mut cap = 0;
+    if i % 6 == 1 && w >= 66 {
+        // directed: literal stretches around the 64-cell cap of a run header.  Row y starts with k cells whose neighbours differ in
+        // character AND attribute (k around 64 / 128), then a pair sharing the attribute / the character / both, then the random rest.
+        compress = true;
+        cap = 1;
+        for y in 0..h as usize {
+            let k = ([62usize, 63, 64, 65, 66, 127, 128, 129][y % 8]).min(w as usize - 2);
+            for x in 0..=k {
+                let c = &mut cells[y * w as usize + x];
+                c.ch = b'A' + ((x * 7 + y) % 50) as u8;
+                c.fg = (x % 7) as u32 + 1;
+                c.bg = (x % 3) as u32;
+                c.bl = false;
+            }
+            let prev = cells[y * w as usize + k - 1].clone();
+            let c = &mut cells[y * w as usize + k];
+            match (y / 8) % 3 { 0 => { c.fg = prev.fg; c.bg = prev.bg; } 1 => c.ch = prev.ch, _ => { c.fg = prev.fg; c.bg = prev.bg; c.ch = prev.ch; } }
+            if two { for x in 0..=k { cells[y * w as usize + x].pg = 0; } }
+        }
+        if two { let last = cells.len() - 1; cells[last].pg = 1; }
+    }
+    Src { fmt: "xb", w, h, mode, pal, fonts, cells, compress, sauce: r.gen_bool(0.3), class: format!("fonts={},fh={},pal={},compress={},cap={}", if two { 2 } else { 1 }, fh, 0, compress as u8, cap) }
 }
 
 fn gen_bin(r: &mut StdRng, i: u64, _thorough: bool) -> Src {
